@@ -303,7 +303,10 @@ CHECKS = {
             {"args": ["sched", "-n", str(n), "-len", "20", "-slots", "0", "-ties"] + (["-faults", "1"] if pid == "C20" else []), "seed_off": 70},
             {"args": ["sched", "-cron", "-n", str(max(n // 3, 100)), "-len", "25", "-slots", "0"] + (["-faults", "1"] if pid == "C20" else []), "seed_off": 90},
         ] + ([{"args": ["disp"]}] if pid == "C06" else []) + ([{"args": ["corefault"]}] if pid == "C20" else [])
-          + ([{"args": ["hookconc", "-n", str({"quick": 300, "thorough": 6000, "widen": 2000}[tier]), "-len", "10"], "seed_off": 200}] if pid == "C05" else []))({"quick": 500, "thorough": 20000, "widen": 3000}[tier]))(pid),
+          + ([{"args": ["hookconc", "-n", str({"quick": 300, "thorough": 6000, "widen": 2000}[tier]), "-len", "10"], "seed_off": 200},
+              # the hook timer alone with GetNext failures while re-arming (the injected error's VALUE varies: opaque, or one
+              # that errors.Is takes for context.Canceled / DeadlineExceeded): a failure must surface, never leave an idle timer
+              {"args": ["hook", "-n", str({"quick": 10000, "thorough": 200000, "widen": 60000}[tier]), "-len", "15", "-faults"], "seed_off": 210}] if pid == "C05" else []))({"quick": 500, "thorough": 20000, "widen": 3000}[tier]))(pid),
         "rule": "the real Scheduler over the real observable repository (in-memory + hook timer, virtual clock), a "
                 "call-logging proxy and a simulated dispatcher with 1..3 slots: random scripts of user mutations, "
                 "time advances, Step / Retry (driver policy: a step that reported an error is retried), completions "
